@@ -4982,7 +4982,9 @@ class Path:
         """
         new_path = Path(
             copy(self.path),
-            copy(self.segments),
+            # the jump destinations of segments are rewritten after a leap:
+            # work on copies, not on the Segment objects of the part
+            {sid: copy(seg) for sid, seg in self.segments.items()},
             no_repeats=self.no_repeats,
             all_repeats=self.all_repeats,
             jumped=self.jumped,
